@@ -437,13 +437,21 @@ func (e *Exec) havocAll(s *State) {
 	e.havocAllUsed = true
 	after := e.hhavoc(s, "$alloc", []string{"Ref"}, "Bool")
 	e.epochAlloc[s.epoch] = after
-	s.assume("(forall ((r Ref)) (! (=> (%s r) (%s r)) :pattern ((%s r))))", before, after, after)
+	s.assume("%s", e.growAxiom(before, after))
+}
+
+func (e *Exec) growAxiom(before, after string) string {
+	pats := fmt.Sprintf(":pattern ((%s r))", after)
+	if !e.macros[before] {
+		pats += fmt.Sprintf(" :pattern ((%s r))", before)
+	}
+	return fmt.Sprintf("(forall ((r Ref)) (! (=> (%s r) (%s r)) %s))", before, after, pats)
 }
 
 func (e *Exec) allocGrow(s *State) {
 	before := e.cur(s, "$alloc", []string{"Ref"}, "Bool")
 	after := e.hhavoc(s, "$alloc", []string{"Ref"}, "Bool")
-	s.assume("(forall ((r Ref)) (! (=> (%s r) (%s r)) :pattern ((%s r))))", before, after, after)
+	s.assume("%s", e.growAxiom(before, after))
 }
 
 func (e *Exec) isAlloc(s *State, r string) string {
